@@ -189,12 +189,16 @@ def judge(worker: int, rel: str, src_mut: str, props, desc, results, wt_root):
             if r.returncode == 2:
                 rec.setdefault("inconclusive", []).append(c)
         try:
-            r = sh("timeout -s KILL 400 unshare -n sh -c 'ip link set lo up; /venv/bin/python -m pytest -q -p no:cacheprovider --timeout=60 -x -q 2>&1 | tail -1'", cwd=wt, timeout=900)
+            r = sh("timeout -s KILL 400 unshare -n sh -c 'ip link set lo up; /venv/bin/python -m pytest -q -p no:cacheprovider --timeout=60 -x -q > .mut_suite.log 2>&1; echo EXIT=$?'", cwd=wt, timeout=900)
         except subprocess.TimeoutExpired:
             rec["suite"] = "fails: hang"
             return rec
         tail = (r.stdout.strip().splitlines() or [""])[-1]
-        rec["suite"] = "passes" if " passed" in tail and "failed" not in tail and "error" not in tail else "fails: " + (tail[:80] or "killed after 400 s (hang)")
+        rec["suite"] = "passes" if tail == "EXIT=0" else "fails: " + (tail or "killed after 400 s (hang)")
+        try:
+            os.unlink(os.path.join(wt, ".mut_suite.log"))
+        except OSError:
+            pass
         if rec["suite"] == "passes":
             d = sh(f"git diff -- {rel}", cwd=wt).stdout
             rec["diff"] = d[-1500:]
